@@ -39,7 +39,7 @@ CHECKS = {
               "non-trivial = history with >=2 data calls in which a REQUEST_HEADERS or RESPONSE_HEADERS callback fired; distinct by input hash "
               "(capped at 400k per worker, so counted conservatively). Two structured campaigns run under the same sanitizers with their semantic oracles switched off "
               "(--mode c01): the C02 exchange generator (cookies, Basic with and without padding, Digest, folding, trailers, all chunkers), the C07 coded-body generator, "
-              "and the enumerators / generators of C10 C11 C12 C13 C14 C15 C17 (path and URL decoders, URI splitting, multipart, urlencoded, containers and primitives)"),
+              "and the enumerators / generators of C10 C11 C12 C13 C14 C15 C17 (path and URL decoders, URI splitting, multipart, urlencoded, containers and primitives). (c12 and c17 ran no sub-campaign under --mode c01 before round 4 - corrected; the c07 / c10 / c02 widenings of round 4 run here too)"),
         assumptions=STREAM_ASSUME,
     ),
     "C02": dict(
@@ -48,7 +48,7 @@ CHECKS = {
               "transaction (method, URI, protocol, header names/values in table order with folded lines joined and repeated fields merged with ', ', trailers, host/port, "
               "cookies, Basic credentials, query parameters, status/reason, body bytes both ways, case-insensitive lookups) compared with the expectation derived from the "
               "AST; every generated value carries a message-unique tag. Non-trivial = exchange with >=2 of {folded header, repeated header, trailer, >=2 pipelined "
-              "messages, cookies, credentials, absolute-form target, bare-LF message}; distinct by wire bytes"),
+              "messages, cookies, credentials, absolute-form target, bare-LF message}; distinct by wire bytes. Round-4 widening: hosts may be IPv4 / bracketed IPv6 literals, up to three interim 100 responses precede a final response, HEAD may be answered 304/204, and the last exchange may be a refused CONNECT with an authority-form target (reg-name, IPv4, bracketed IPv6; host and port expected from the target)"),
         assumptions=["host names are compared case-insensitively (libhtp lower-cases them on some paths only)",
                      "generator domain restrictions: see harness/httpgen.hpp header comment"],
     ),
@@ -59,7 +59,7 @@ CHECKS = {
               "bodyless framing, bodies with CR LF NUL and HTTP look-alikes, CRLF or bare-LF terminators) x 10 personalities; reference = one call per direction; compared "
               "with EVERY single cut of the request stream and of the response stream, one byte per call, and 8 random multi-cuts: canonical transaction dumps "
               "(multi-packet-head masked), delivered body bytes, per-(transaction,direction) callback projection. Non-trivial = cut strictly inside a message head, inside a "
-              "CR LF pair or within 2 bytes of a head/body or message/message joint; distinct by (stream bytes, cut)"),
+              "CR LF pair or within 2 bytes of a head/body or message/message joint; distinct by (stream bytes, cut). Body campaign also has LZMA-coded responses and one line of 8 960..17 940 bytes (request target, request header, cookie, response header, reason phrase: longer than the soft field limit, shorter than the hard one) cut at 24 sampled positions, every position of its first 400 bytes, byte-wise for 4 000 bytes and at random"),
         assumptions=["request stream delivered before the response stream (interleavings are C04's dimension); hand-over protocol followed",
                      "generator domain restrictions: see harness/httpgen.hpp header comment"],
     ),
@@ -69,7 +69,7 @@ CHECKS = {
               "with interim responses, random chunk plans (random cuts / fixed steps / sparse Bernoulli cuts) and a generated legal interleaving in four styles (responses as "
               "early as legal, requests first, random, strict alternation), DATA_OTHER hand-over followed, transaction destruction and htp_connp_tx_freed between calls, "
               "auto-destroy on/off, 10 personalities. Oracle: N TRANSACTION_COMPLETE events in arrival order, tags match, pipelining flag vs the harness's own offer-order "
-              "bookkeeping. Non-trivial = N >= 3 with a point where >= 2 requests are outstanding; distinct by (streams, step list)"),
+              "bookkeeping. Non-trivial = N >= 3 with a point where >= 2 requests are outstanding; distinct by (streams, step list). The pipelining indicator must also be set when a call that BEGINS with the first byte of a request (the previous request ended with the previous call) is made before the first byte of the previous response"),
         assumptions=["'started' is ambiguous below line granularity: the flag must be set when a whole first request line precedes the previous response, must not be set when "
                      "every request's first byte follows it; in between either value is accepted",
                      "close-delimited responses are re-framed with Content-Length (their completion needs the close)"],
@@ -109,7 +109,7 @@ CHECKS = {
               "every single cut of the coded body when <= 600 bytes (else the first 40, the last 24 and 30 random positions), one byte per call, 5 random multi-cuts. "
               "Pass-through class: printable text that zlib itself rejects without output as raw, zlib and gzip. Bomb class: 70 KB - 9 MB (thorough 40 MB) of one byte value "
               "compressed 1-3 times, limits {1000, 8192, 100000, 1 MiB, default}, whole / N cuts / one byte per call, bound checked at every body callback. "
-              "Non-trivial = a cut inside the coded body, or a bomb scenario; distinct by (stream, cut)"),
+              "Non-trivial = a cut inside the coded body, or a bomb scenario; distinct by (stream, cut). One or two body-less exchanges whose responses announce a coding (HEAD / 304 / 204, single or multi-valued Content-Encoding) may precede the coded exchange (no body bytes may be delivered for them and the next body must still decode exactly); 'lzma' bodies with LZMA switched off (lzma_layers 0) must pass through unchanged in both directions"),
         assumptions=["codings in a list are applied by libhtp in header order; lists are generated in that order (the library documents no order)",
                      "a mismatch in a run with a decompressor restart (T3) while the coded body arrived in more than one piece is attributed to the known finding D7; one-piece runs are never attributed",
                      "trailing bytes after the end of the compressed stream are not generated (not covered by the statement)"],
@@ -156,7 +156,7 @@ CHECKS = {
               "steps): retention monitor, no silent truncation when no ERROR, folded cap, repetition cap, max_tx+1; non-trivial = case in which the limit was actually hit "
               "(ERROR). (2) steady state: 2500 (thorough 10000) transactions of each of 12 shapes x 4 personalities and rapidcheck mixes, auto-destroy + logging off + "
               "htp_connp_tx_freed: live heap (ASan allocator statistics) and list length after every pair must not grow after warm-up; meter negative control. (3) fuzz: after every call: request/response line buffer <= configured hard limit (limits drawn from {16..4096, default}), transactions held "
-              "<= max_tx + 1; non-trivial = history with >=2 data calls in which a headers callback fired"),
+              "<= max_tx + 1; non-trivial = history with >=2 data calls in which a headers callback fired. Limit kinds 16-19: max_tx on strictly serial request/response pairs and on responses without requests (nothing destroyed), and a line that never ends behind a folded header whose complete lines already add up to more than the hard limit (both directions; all complete lines may arrive in one piece). Steady shapes 15-20: responses to HEAD / 304 / 204 that announce a (multi-valued) coding, zlib-wrapped deflate split in its first bytes, truncated gzip, garbage under gzip; mixed sequences begin and end with gzip transactions, intermediate samples get 48 KiB for state retained until the next coded response, the last sample is held to the strict 4 KiB bound"),
         assumptions=STREAM_ASSUME,
     ),
     "C11": dict(
@@ -166,7 +166,7 @@ CHECKS = {
               "multiple C-L), each in a random spelling: header order permuted, name case, SP/HT around values, T-E token lists with neighbours and look-alikes "
               "(chunkedx, chunked;q=1), filler headers, CRLF or LF, 10 personalities, random cuts or one byte per call. Oracle: expected indicator bit at the headers "
               "callback and at completion; chunked framing wins (coding == CHUNKED, delivered body == chunk-decoded body). Non-trivial = trigger delivered in >= 2 pieces; "
-              "distinct by (bytes, cuts)"),
+              "distinct by (bytes, cuts). The over-long host label (64..70 octets) is generated as only / first / middle / last label"),
         assumptions=["one-directional as the property states: absence of a flag on trigger-free messages is not asserted",
                      "'unparseable' Content-Length = no digits or an overflowing number (libhtp skips leading junk such as '-')"],
     ),
@@ -178,7 +178,7 @@ CHECKS = {
               "truncated UTF-8 and dot segments x 768 configurations; random byte strings up to 64 B; the ten personalities through the public request route (tied to "
               "the direct call and to the model); the URLENCODED context through the public htp_urldecode_inplace_ex over an 11-symbol alphabet up to length 6 (7) x 48 "
               "configurations. Oracle: independent tokenise-then-map reference model (harness/refdec.hpp): path equality, length <= raw, no dot segment, idempotence, each "
-              "anomaly flag iff the construct occurs. Non-trivial = string with an escape or UTF-8 lead byte AND one of / . \\ ; distinct by string"),
+              "anomaly flag iff the construct occurs. Non-trivial = string with an escape or UTF-8 lead byte AND one of / . \\ ; distinct by string. Token level also has dots that exist only after a later stage (%c0%ae, raw C0 AE, %uff0e, EF BC 8E, %u002e); a random campaign of 1..9 tokens from a 47-token dictionary (double escapes, best-fit look-alikes of / . and backslash, overlong forms, truncated escapes) samples the whole 768-point lattice"),
         assumptions=["where htp_config.h is silent the model is pinned to observed behaviour; the pins are listed in coverage.notes",
                      "response_status_expected_number is not asserted (outside the property statement)"],
     ),
@@ -187,7 +187,7 @@ CHECKS = {
         rule=("every string over {a : / @ ? # [ ] . 0 9 SP} up to length 7 (thorough 8), enumerated exhaustively shortest-first, through htp_parse_uri + "
               "htp_normalize_parsed_uri with a real transaction; plus rapidcheck strings over all bytes up to 48 B (half of them with a scheme:// prefix) and "
               "token strings through the public request-line route (GET and CONNECT); oracle = re-join predicate + leading-slash rule + port value/invalid rule. "
-              "Non-trivial = an authority was actually parsed (hostname reported); distinct by target string"),
+              "Non-trivial = an authority was actually parsed (hostname reported); distinct by target string. Structured targets (full product of 4 schemes x 4 userinfo forms x 6 hosts incl. bracketed literals x 10 port texts x 5 paths x 4 queries x 4 fragments = 76 800, plus 54 CONNECT authorities): the components are chosen first and every reported raw component must be exactly the chosen one; port templates with userinfo + bracketed host; bracketed CONNECT authorities at every port magnitude"),
         assumptions=["the request-line route is sampled, not enumerated; CONNECT authorities are compared case-insensitively (htp_parse_hostport lower-cases port-less hosts)"],
     ),
     "C14": dict(
@@ -206,7 +206,7 @@ CHECKS = {
               "(invalid handling x3, plus decoding, %u decoding, raw/encoded NUL termination), one more length x every cut x 6 rotating configurations, through "
               "htp_urlenp_parse_partial/finalize with exact-size chunk copies; rapidcheck strings up to 96 B with up to 6 cuts (empty chunks included); end-to-end "
               "POSTs (query string + urlencoded body, all personalities, random cuts) compared by parameter source. Oracle: reference split rule + reference decoder; "
-              "also the anomaly flags. Non-trivial = >=2 pieces and >=1 escape or '+'; distinct by input (and chunking for the random part)"),
+              "also the anomaly flags. Non-trivial = >=2 pieces and >=1 escape or '+'; distinct by input (and chunking for the random part). Token sequences (1..12 tokens of 41: %25, %2541, %252B, %2B, %26, %3D, %u0025, truncated and invalid escapes, 0xFF / 0x80 / NUL bytes) with up to three cuts; in all 48 configurations the URL_PATH context is given the OPPOSITE of every URLENCODED switch"),
         assumptions=["query strings in the end-to-end part avoid whitespace, '#' and control bytes (request-line syntax)"],
     ),
     "C16": dict(
@@ -214,7 +214,7 @@ CHECKS = {
         rule=("rapidcheck scenarios: [0-2 preceding tagged pairs] + CONNECT (or GET + Upgrade) + client payload in {tagged HTTP requests, TLS-like bytes, random bytes with LF/NUL, "
               "none, binary without LF/NUL of 40..40000 bytes} + response status in {200,201,204,299,101,407,403,404,500} with/without body + server-side bytes; cut plans for both "
               "streams (random, fixed step, biased to the last bytes of the CONNECT head), 0-2 request calls before any response byte, auto-destroy on/off, 10 personalities. "
-              "Non-trivial = payload shares a chunk with the CONNECT head or a cut falls within the last 4 bytes of the head; distinct by scenario text"),
+              "Non-trivial = payload shares a chunk with the CONNECT head or a cut falls within the last 4 bytes of the head; distinct by scenario text. Tagged requests in the tunnel may carry a padded target (30..140 bytes, so that their first line is longer than the 64-byte probe) and must be reported with exactly the target sent; request chunks ending 60..68 bytes behind the CONNECT head"),
         assumptions=["the feeder follows the DATA_OTHER hand-over, offers a response only after all bytes of its request, and offers server-side tunnel bytes only after a call returned TUNNEL",
                      "a 2xx CONNECT without client payload stays open (completion not required)",
                      "without LF/NUL the probe may wait; tunnel mode is required only once the payload exceeds what the parser can buffer (hard field limit)"],
@@ -239,7 +239,7 @@ CHECKS = {
               "framing, gzip / deflate / two-layer / LZMA coded bodies in both directions, CONNECT refused and tunnelled, malformed mixes, container-growth shapes that push every list / table / builder past its initial capacity (>32 header fields per direction, >16 transactions, >32 parameters and cookies, >16 multipart parts and 40 part headers, >8 log records, one field in 1..4-byte pieces); 10 personalities, shared configuration copy). "
               "For each input the N allocations (malloc/calloc/realloc/strdup of libhtp, in-tree LZMA and statically linked zlib, wrapped at link time) of the fault-free run are counted, "
               "then the input is re-run once for EVERY k in 1..N with the k-th allocation returning NULL, under ASan+UBSan, in forked children (a crash is recorded and the "
-              "enumeration continues with k+1). Non-trivial = the failed allocation happened after parser creation (mid-stream); counted per (input, k)"),
+              "enumeration continues with k+1). Non-trivial = the failed allocation happened after parser creation (mid-stream); counted per (input, k). LZMA inputs also use 16 KiB / 64 KiB / 1 MiB dictionaries with 5..40 kB of incompressible output, so that the decoder's dictionary buffer is reallocated while decoding; the driver reads the last error record after every call"),
         assumptions=["single fault per run (as the property states); leaks under an injected fault are not violations",
                      "allocations made by libc internally (stdio, iconv) are not wrapped"],
     ),
@@ -253,7 +253,7 @@ CHECKS = {
               "while the others continue (ASan+UBSan build); (b) one thread per connection released by a barrier with generated start skews (ThreadSanitizer build, 8 processes). "
               "Oracle: each connection's canonical dump + complete callback trace + per-call results == its solo run with a private configuration; byte snapshot of the shared "
               "htp_cfg_t and of every hook list unchanged; process umask unchanged; no ThreadSanitizer report. Non-trivial = >= 3 connections whose calls alternate at least "
-              "2k times (a) / whose lifetimes overlap (b)"),
+              "2k times (a) / whose lifetimes overlap (b). LZMA bodies may need more dictionary than a 16 KiB lzma_memlimit allows (memory-limit path on one connection only); per-context best-fit replacement bytes with the same unmapped %u code points in query parameters, userinfo and fragment"),
         assumptions=["(b) samples thread schedules, it does not enumerate them; a race TSan's happens-before analysis cannot see (process-wide umask toggling around mkstemp) is only checked through the final umask value",
                      "rapidcheck itself runs on the main thread only"],
     ),
